@@ -31,7 +31,7 @@ func vfGenProdConf(t *rapid.T, emph string) vfProdConf {
 	switch {
 	case emph == "C05":
 		c.Idempotent = true
-	case modern && vfcore.EnvInt("VF_NO_IDEMPOTENT", 0) == 0:
+	case modern && emph != "C18" && vfcore.EnvInt("VF_NO_IDEMPOTENT", 0) == 0:
 		c.Idempotent = rapid.IntRange(0, 3).Draw(t, "idempotent") == 0
 	}
 	if c.Idempotent {
@@ -336,6 +336,16 @@ func vfGenProdCase(t *rapid.T, emph string) *vfProdCase {
 	gates := vfGenFaults(t, c, 12, c.Conf.Idempotent)
 	vfGenScript(t, c, gates)
 	vfGenDelays(t, c)
+	if emph == "C18" {
+		kinds := []string{"mut", "count", "panic"}
+		if vfVersionAtLeast(c.Conf.Version, "0.11.0.0") {
+			kinds = append(kinds, "hdr", "hdr")
+		}
+		n := rapid.IntRange(1, 4).Draw(t, "nInterceptors")
+		for i := 0; i < n; i++ {
+			c.Conf.Interceptors = append(c.Conf.Interceptors, rapid.SampledFrom(kinds).Draw(t, fmt.Sprintf("ic%d", i)))
+		}
+	}
 	if emph == "C01" && !c.Conf.Idempotent && rapid.IntRange(0, 5).Draw(t, "syncVariant") == 0 {
 		c.Sync = rapid.IntRange(1, 4).Draw(t, "syncSenders")
 		c.SyncBatch = rapid.Bool().Draw(t, "syncBatch")
